@@ -28,6 +28,7 @@ SESSIONS = [
     ('inline_and_let', ['(defun-inline G (A) (let ((Z (+ A 1))) (c Z A)))'], '(G (- X 2))', ['X'], [('list', 'B')]),
     ('two_free', ['(defun H (P Q) (if (= P 1) (c P Q) (c Q P)))'], '(H X Y)', ['X', 'Y'], [('list', 'B', 'B')]),
     ('list_building', ['(defun K (L) (if L (c (+ (f L) 1) (K (r L))) ()))'], '(K (list X 2 Y))', ['X', 'Y'], [('list', 'B', 'B')]),
+    ('at_capture_if', ['(defun pass (A (@ Z (B D)) E) (if A B (c D Z)))'], '(pass () P 3)', ['P'], [('list', ('list', 'B', 'B', 'B')), ('list', ('list', 'B', 'B'))]),
     ('constant_result', ['(defun F (A B) (if A (+ A B) (* B 2)))'], '(F 5 3)', [], [('list',)]),
     ('constant_through_recursion', ['(defun sum (L) (if L (+ (f L) (sum (r L))) 0))'], '(sum (list 1 2 3 4))', [], [('list',)]),
 ]
